@@ -43,7 +43,8 @@ func (a Addr) MarshalText() ([]byte, error) {
 	return buf.Bytes(), nil
 }
 
-var addrRe = regexp.MustCompile(`^([A-z0-9\-_/:]+)@(.+):([0-9]+)$`)
+// the fingerprint is "SHA256:" followed by unpadded standard base64, which uses '+' and '/'
+var addrRe = regexp.MustCompile(`^([A-Za-z0-9+/=\-_:]+)@(.+):([0-9]+)$`)
 
 func ParseAddr(data []byte) (Addr, error) {
 	a := Addr{}
